@@ -167,6 +167,26 @@ def okOr {α : Type} (o : Option α) (tag : String) : M α :=
 /-- `iter.sum::<uN>()` : left fold with the checked `+` of the type -/
 def usum (max : Nat) (l : List Nat) : M Nat := l.foldlM (fun acc x => uadd max acc x) 0
 
+/-- (b0507) `a < b` on `Option<uN>` (derived `PartialOrd`): `None` is below every `Some` -/
+def optLt : Option Nat → Option Nat → Bool
+  | none, some _ => true
+  | some x, some y => decide (x < y)
+  | _, none => false
+
+/-- (b0507) `let r = f(..);` for a `Result`-valued call whose value is inspected later (`r.is_ok()`, `Err(r.unwrap_err())`):
+    an `Err` becomes a value, a panic / overflow still propagates at the call -/
+def capture {α : Type} (x : M α) : M (Except String α) :=
+  match x with
+  | .ok v => .ok (.ok v)
+  | .error (.err t) => .ok (.error t)
+  | .error f => .error f
+
+/-- `r.unwrap_err()` on a captured `Result` (panics on `Ok`) -/
+def unwrapErr {α : Type} (r : Except String α) : M String :=
+  match r with
+  | .error t => pure t
+  | .ok _ => panic
+
 /-- `policy_err!(self, tag, ..)`: `filterErr tag` says whether the policy filter keeps `tag` an error; if not
     the macro only logs and **execution continues**. -/
 def policyErr (filterErr : String → Bool) (tag : String) : M Unit :=
